@@ -328,6 +328,8 @@ def s_neg(a):
         return XReal(a.ninf, a.pinf, -a.val)
     if kind(a) == 'bool':
         return -to_int(a)
+    if kind(a) not in ('int', 'real'):
+        raise Unsupported('negation of a non-numeric value %r' % (a,))
     return -a
 
 
